@@ -61,6 +61,12 @@ def check(repo: Repo) -> Result:
     out_rule(repo, res, inv)
     methods_rule(repo, res)
     dispatch_rule(repo, res)
+    from rules import c19
+    from rules.common import share
+
+    defaults_rule(repo, res, inv)
+    r7 = res.rule("C06-R7", "array_equal / array_equiv answer without consulting NumPy only when two unit-carrying operands differ in units: a bare operand counts as dimensionless (the null unit), as NumPy would treat the bare data", floor=2)
+    share(res, r7, "C19", lambda t: c19.comparison_handlers(repo, t), ["C19-R3"], want=lambda k: k.endswith(":units-first"), min_keys=2)
     return res
 
 
@@ -484,6 +490,65 @@ def out_rule(repo, res, inv):
         res.check(not probs, key, fn.where(), f"{fn.name}: out= handling deviates from the idiom of its siblings: {sorted(set(probs))[:2]}", rid=r4)
 
 
+# documented signatures of the ndarray methods unyt_array overrides (NumPy reference): parameter -> accepted defaults
+NDARRAY_METHOD_DEFAULTS = {
+    "take": {"axis": (None,), "out": (None,), "mode": ("raise",)},
+    "argsort": {"axis": (-1,), "kind": (None, "quicksort"), "order": (None,)},  # kind=None means quicksort
+    "dot": {"out": (None,)},
+    "copy": {"order": ("C",)},
+}
+
+
+def defaults_rule(repo, res, inv):
+    """C06-R8: a call that leaves an optional argument out must compute what NumPy computes for its own default: every
+    literal default in a handler's / method override's signature equals NumPy's default for that parameter
+    (spec/numpy_defaults.json, read from the environment's NumPy by tools/gen_numpy_defaults.py; ndarray methods from
+    the table above)."""
+    import json
+    import os
+
+    r8 = res.rule("C06-R8", "optional parameters of handlers and ndarray-method overrides default to NumPy's own defaults", floor=60)
+    with open(os.path.join(os.path.dirname(os.path.dirname(os.path.abspath(__file__))), "spec", "numpy_defaults.json"), encoding="utf-8") as f:
+        table = json.load(f)["defaults"]
+
+    def literal_defaults(fn):
+        a = fn.node.args
+        names = [x.arg for x in a.posonlyargs + a.args]
+        d = dict(zip(names[::-1], a.defaults[::-1]))
+        for x, dv in zip(a.kwonlyargs, a.kw_defaults):
+            if dv is not None:
+                d[x.arg] = dv
+        out = {}
+        for k, v in d.items():
+            if isinstance(v, ast.Constant):
+                out[k] = v.value
+            elif isinstance(v, ast.UnaryOp) and isinstance(v.op, ast.USub) and isinstance(v.operand, ast.Constant):
+                out[k] = -v.operand.value
+        return out
+
+    for h in inv:
+        mine = literal_defaults(h.fn)
+        for t in h.targets:
+            ref = table.get(t)
+            if ref is None:
+                continue
+            for p_, v in sorted(mine.items()):
+                if p_ not in ref:
+                    continue
+                same = (v == ref[p_]) and (isinstance(v, bool) == isinstance(ref[p_], bool)) and ((v is None) == (ref[p_] is None))
+                res.check(same, f"{h.key}:{t}:{p_}", h.fn.where(), f"{h.fn.name}({p_}={v!r}) but {t}'s own default is {ref[p_]!r}: a call that omits {p_} runs a different computation on quantities than on bare arrays", repr(ref[p_]), repr(v), rid=r8)
+    arr = repo.mod(ARR)
+    for m, ref in NDARRAY_METHOD_DEFAULTS.items():
+        if not arr.has_func(f"unyt_array.{m}"):
+            continue
+        fn = arr.func(f"unyt_array.{m}")
+        res.fn(fn)
+        mine = literal_defaults(fn)
+        for p_, allowed in ref.items():
+            if p_ in fn.params:
+                res.check(p_ in mine and mine[p_] in allowed and ((mine[p_] is None) == (None in allowed) or mine[p_] in allowed), f"method:{m}:{p_}", fn.where(), f"unyt_array.{m}: default of {p_} is {mine.get(p_, '<not a literal>')!r}, ndarray.{m} documents {allowed[0]!r}: q.{m}(...) without {p_} computes something else than the bare array's method", repr(allowed[0]), repr(mine.get(p_)), rid=r8)
+
+
 def methods_rule(repo, res):
     r5 = res.rule("C06-R5", "ndarray-method overrides forward their arguments unchanged and in order", floor=5)
     arr = repo.mod(ARR)
@@ -597,4 +662,7 @@ MUTANTS = [
     Mutant("twin-local-alias", AF, "cross", "np.cross._implementation(np.asarray(a), np.asarray(b), *args, **kwargs)", "np.cross._implementation(np.asanyarray(a), np.asarray(b), *args, **kwargs)", (), benign=True),
     Mutant("twin-kw-form", AF, "around", "np.around._implementation(np.asarray(a), decimals=decimals) * ret_units", "np.around._implementation(np.asarray(a), decimals) * ret_units", (), benign=True),
     Mutant("comp-helper-swaps-operands", AF, "_array_comp_helper", "    if bu != au and au != NULL_UNIT and bu != NULL_UNIT:", "    if au == NULL_UNIT and bu != NULL_UNIT:\n        a, au, b, bu = b, bu, a, au\n    if bu != au and au != NULL_UNIT and bu != NULL_UNIT:", ("C06-R3",)),
+    Mutant("take-method-default-clip", ARR, "unyt_array.take", 'mode="raise"', 'mode="clip"', ("C06-R8",)),
+    Mutant("handler-default-differs", AF, "around", "decimals=0", "decimals=1", ("C06-R8",)),
+    Mutant("array-equal-none-sentinel", AF, "array_equal", 'getattr(a1, "units", NULL_UNIT)', 'getattr(a1, "units", None)', ("C06-R7",)),
 ]
